@@ -932,6 +932,14 @@ func (sc *scenario) compare(rn int, rd Round, evs []Ev) {
 		diff = fmt.Sprintf("%d events observed, %d predicted", len(evs), len(rd.Pred))
 	}
 	for k := 0; diff == "" && k < len(rd.Pred); k++ {
+		if pe := rd.Pred[k]; pe.Ev == "Msg" && pe.Match == 0 {
+			// predicted: the decoder is fed garbage from here on; what exactly it
+			// makes of it is not modelled - anything but the right frame agrees
+			if evs[k].Ev == "Msg" && evs[k].Match == evs[k].N {
+				diff = "predicted garbled frames, observed the right frame"
+			}
+			break
+		}
 		if key(evs[k]) != key(rd.Pred[k]) {
 			diff = fmt.Sprintf("observed %q, predicted %q", key(evs[k]), key(rd.Pred[k]))
 		}
